@@ -324,12 +324,16 @@ T* copy_memory_or_deny_access(rlbox_sandbox<T_Sbx>& sandbox,
     }
   }
 
+  tainted<T*, T_Sbx> src_tainted = src;
+  if (src_tainted == nullptr) {
+    return nullptr;
+  }
+
   auto copy = static_cast<T*>(malloc(source_size));
   if (!copy) {
     return nullptr;
   }
 
-  tainted<T*, T_Sbx> src_tainted = src;
   char* src_raw = src_tainted.copy_and_verify_buffer_address(
     [](uintptr_t val) { return reinterpret_cast<char*>(val); }, num);
   std::memcpy(copy, src_raw, source_size);
